@@ -3,7 +3,7 @@
    by the extracted OCaml driver for the correspondence runs. *)
 From Coq Require Import ZArith List Bool Arith.
 From PV Require Import Num Model_voigt Model_decomp Model_decomp_series.
-From PV.gen Require Import Gen_tensors.
+From PV.gen Require Import Gen_tensors Gen_polar.
 Import ListNotations.
 
 Section Entry.
@@ -34,17 +34,19 @@ Section Entry.
     if Nat.eqb (length xs) 90 then
       let '(t, r) := take 81 xs in out 81 (rotate4 (aol t) (aol r))
     else Err OtherError.
-  (* polar_decompose over the recorded SVD:  U(9) S(3) Vh(9)  /  M(9) S(3) Vh(9) *)
+  (* polar_decompose over the recorded SVD:  M(9) U(9) S(3) Vh(9) -- the GENERATED definitions of
+     Gen_polar (tie T); Inst_tensors.polar_left_inst / polar_right_inst equate them with
+     Model_decomp.polar_left / polar_right, on which the theorems are stated *)
   Definition run_polar_left (xs : list F) : res (list F) :=
-    if Nat.eqb (length xs) 21 then
-      let '(u, r) := take 9 xs in let '(s, vh) := take 3 r in
-      let '(R, P) := polar_left (aol u) (aol s) (aol vh) in
+    if Nat.eqb (length xs) 30 then
+      let '(m, r0) := take 9 xs in let '(u, r) := take 9 r0 in let '(s, vh) := take 3 r in
+      let '(R, P) := k_polar_decompose_left (aol m) (aol u) (aol s) (aol vh) in
       Ok (arr_to_list 9 R ++ arr_to_list 9 P)
     else Err OtherError.
   Definition run_polar_right (xs : list F) : res (list F) :=
-    if Nat.eqb (length xs) 21 then
-      let '(m, r) := take 9 xs in let '(s, vh) := take 3 r in
-      match polar_right (aol m) (aol s) (aol vh) with
+    if Nat.eqb (length xs) 30 then
+      let '(m, r0) := take 9 xs in let '(u, r) := take 9 r0 in let '(s, vh) := take 3 r in
+      match k_polar_decompose_right (aol m) (aol u) (aol s) (aol vh) with
       | Err e => Err e
       | Ok (R, Um) => Ok (arr_to_list 9 R ++ arr_to_list 9 Um)
       end
